@@ -104,9 +104,11 @@ def extract(cfg, repo="/repo", slot=None, crate="fn_graph", timeout=600):
         # crate's fingerprints so it is re-checked from the current sources.
         for fp in glob.glob(os.path.join(tdir, "debug", ".fingerprint", crate + "-*")):
             shutil.rmtree(fp, ignore_errors=True)
+        # drop stale fact files (another check may still be reading a recent one)
         for old in glob.glob(os.path.join(fdir, crate + "-*.json")):
             try:
-                os.unlink(old)
+                if time.time() - os.path.getmtime(old) > 900:
+                    os.unlink(old)
             except OSError:
                 pass
         env = _env({
